@@ -8,6 +8,7 @@ import (
 	"math/big"
 	"time"
 
+	"verif/mc"
 	"verif/pki"
 )
 
@@ -29,6 +30,8 @@ type chainDesc struct {
 	keys     []string   // key name per position
 	wrongKey map[int]bool
 	wrongDN  map[int]bool
+	permDN   map[int]bool // issuer name = the issuer's subject with its attributes in another order (another DER, same text)
+	badSig   map[int]bool // signature value of the certificate at this position corrupted after issuance (content untouched)
 	// structural operation applied after forging
 	structural string
 	structArg  int
@@ -41,7 +44,7 @@ type chainDesc struct {
 var caKeyCycle = []string{"p256-a", "p384-a", "rsa2048-a", "p256-b", "p384-b"}
 
 func newChainDesc(n int, leafKey string, p purposeKind) *chainDesc {
-	d := &chainDesc{n: n, wrongKey: map[int]bool{}, wrongDN: map[int]bool{}}
+	d := &chainDesc{n: n, wrongKey: map[int]bool{}, wrongDN: map[int]bool{}, permDN: map[int]bool{}, badSig: map[int]bool{}}
 	for i := 0; i < n; i++ {
 		var t pki.Tmpl
 		switch {
@@ -55,6 +58,8 @@ func newChainDesc(n int, leafKey string, p purposeKind) *chainDesc {
 			t = pki.CATmpl(fmt.Sprintf("ca%d", i))
 		}
 		// distinct, wide validity windows
+		// fixed serial numbers: the same description yields the same to-be-signed bytes every time it is forged in a process
+		t.Serial = big.NewInt(int64(7100 + 10*n + i))
 		t.NotBefore = pki.Now.Add(-time.Duration(48+i) * time.Hour)
 		t.NotAfter = pki.Now.Add(time.Duration(400-i) * 24 * time.Hour)
 		d.tm = append(d.tm, t)
@@ -158,6 +163,12 @@ func refChainOK(d *chainDesc, p purposeKind, withTime bool) (bool, string) {
 		if d.wrongDN[i] {
 			return false, fmt.Sprintf("pos %d issuer name mismatch", i)
 		}
+		if d.permDN[i] {
+			return false, fmt.Sprintf("pos %d issuer name is not the issuer's subject (same attributes, other order)", i)
+		}
+		if d.badSig[i] {
+			return false, fmt.Sprintf("pos %d signature value corrupted", i)
+		}
 	}
 	if ok, why := refLeafOK(d.tm[0], kindOf(d.keys[0]), p); !ok {
 		return false, why
@@ -200,7 +211,24 @@ func (d *chainDesc) forge() []*x509.Certificate {
 		if d.wrongDN[i] {
 			t.IssuerName = &pkix.Name{CommonName: "somebody else", Organization: []string{"verif"}}
 		}
+		if d.permDN[i] {
+			// the issuer's (or, for the last certificate, its own) attributes written as CN, O instead of O, CN
+			cn := t.CN
+			if parent != nil {
+				cn = parent.X.Subject.CommonName
+			}
+			t.IssuerName = &pkix.Name{ExtraNames: []pkix.AttributeTypeAndValue{{Type: asn1.ObjectIdentifier{2, 5, 4, 3}, Value: cn}, {Type: asn1.ObjectIdentifier{2, 5, 4, 10}, Value: "verif"}}}
+		}
 		certs[i] = pki.Issue(t, pki.K(d.keys[i]), parent, signer)
+		if d.badSig[i] {
+			der := append([]byte(nil), certs[i].DER...)
+			der[len(der)-1] ^= 0x01 // the signature value is the last element of a certificate
+			x, err := x509.ParseCertificate(der)
+			if err != nil {
+				panic(mc.HarnessError{Msg: "corrupted-signature certificate does not parse: " + err.Error()})
+			}
+			certs[i] = &pki.Cert{X: x, DER: der, Key: certs[i].Key}
+		}
 	}
 	xs := pki.X509s(certs)
 	switch d.structural {
@@ -289,6 +317,8 @@ func chainMods(n int, p purposeKind) (viol []chainMod, benign []chainMod) {
 		i := i
 		v(fmt.Sprintf("wrong-signing-key@%d", i), i, func(d *chainDesc) { d.wrongKey[i] = true })
 		v(fmt.Sprintf("issuer-name-mismatch@%d", i), i, func(d *chainDesc) { d.wrongDN[i] = true })
+		v(fmt.Sprintf("issuer-name-attributes-reordered@%d", i), i, func(d *chainDesc) { d.permDN[i] = true })
+		v(fmt.Sprintf("signature-value-corrupted@%d", i), i, func(d *chainDesc) { d.badSig[i] = true })
 	}
 	// leaf
 	v("leaf-is-ca", 0, func(d *chainDesc) { d.tm[0].CA = true })
